@@ -586,9 +586,23 @@ func deviations() []deviation {
 			ch.PTNum--
 			return true
 		}},
-		{"number+1", func(ch *HSpec, e *EnvSpec, ps HSpec) bool { ch.Num++; return true }},
-		{"number=parent's", func(ch *HSpec, e *EnvSpec, ps HSpec) bool { ch.Num--; return true }},
-		{"number=0", func(ch *HSpec, e *EnvSpec, ps HSpec) bool { ch.Num = 0; return true }},
+		// the number as a WHOLE (low 64 bits + wide part): with a parent whose low 64 bits are all ones the valid child
+		// has low part 0, so moving only the uint64 part is not the named deviation (false alarm "number=0", see design)
+		{"number+1", func(ch *HSpec, e *EnvSpec, ps HSpec) bool { setNum(ch, new(big.Int).Add(ch.numBig(), big.NewInt(1))); return true }},
+		{"number=parent's", func(ch *HSpec, e *EnvSpec, ps HSpec) bool {
+			if ch.numBig().Sign() == 0 {
+				return false
+			}
+			setNum(ch, new(big.Int).Sub(ch.numBig(), big.NewInt(1)))
+			return true
+		}},
+		{"number=0", func(ch *HSpec, e *EnvSpec, ps HSpec) bool {
+			if ch.numBig().Sign() == 0 {
+				return false
+			}
+			setNum(ch, big.NewInt(0))
+			return true
+		}},
 		// the parent's work-share entropy claimed once more (what a memo corrupted by an in-place addition would expect)
 		{"parent-entropy+parent-ws", func(ch *HSpec, e *EnvSpec, ps HSpec) bool { return inflate(ch, ps, true, false) }},
 		{"parent-delta+parent-ws", func(ch *HSpec, e *EnvSpec, ps HSpec) bool { return inflate(ch, ps, false, true) }},
@@ -603,6 +617,18 @@ func deviations() []deviation {
 		{"x:data", func(ch *HSpec, e *EnvSpec, ps HSpec) bool { return true }},
 	}
 }
+
+// split an unbounded number into its uint64 part and the decimal rest (HSpec.Num / NumX)
+func split(v *big.Int) (uint64, string) {
+	lo := new(big.Int).And(v, new(big.Int).Sub(two64, big.NewInt(1)))
+	hi := new(big.Int).Sub(v, lo)
+	if hi.Sign() == 0 {
+		return lo.Uint64(), ""
+	}
+	return lo.Uint64(), hi.String()
+}
+
+func setNum(ch *HSpec, v *big.Int) { ch.Num, ch.NumX = split(v) }
 
 // inflate adds the parent's work-share entropy to the recorded parent entropy and/or delta of the child
 func inflate(ch *HSpec, ps HSpec, pe, pd bool) bool {
@@ -629,14 +655,6 @@ func wideDeviations() []deviation {
 		name string
 		get  func(ch *HSpec) *big.Int
 		set  func(ch *HSpec, v *big.Int)
-	}
-	split := func(v *big.Int) (uint64, string) {
-		lo := new(big.Int).And(v, new(big.Int).Sub(two64, big.NewInt(1)))
-		hi := new(big.Int).Sub(v, lo)
-		if hi.Sign() == 0 {
-			return lo.Uint64(), ""
-		}
-		return lo.Uint64(), hi.String()
 	}
 	str := func(p func(ch *HSpec) *string) acc {
 		return acc{get: func(ch *HSpec) *big.Int { return z0(*p(ch)) }, set: func(ch *HSpec, v *big.Int) { *p(ch) = v.String() }}
@@ -718,6 +736,13 @@ func verifyCases(c *ctxT, shape int, k int) []Case {
 		ch := pg.child
 		e := cloneEnv(&pg.env)
 		if !devs[i].apply(&ch, e, pg.parent) {
+			continue
+		}
+		// a deviation must deviate: when the changed spec (and environment) IS the valid one the case is dropped
+		// (the x: deviations change the built object, not the spec)
+		if !strings.HasPrefix(devs[i].name, "x:") && !strings.HasPrefix(devs[i].name, "=") &&
+			mustJSON(ch) == mustJSON(pg.child) && mustJSON(e) == mustJSON(&pg.env) {
+			c.rep.Count("verify:dev-is-identity:" + devs[i].name)
 			continue
 		}
 		// H[2] = the honest sibling: verified in between when the verdict is replayed over a history
